@@ -215,7 +215,8 @@ impl RunLengthEncoding {
         let run_count = u64::from_le_bytes(buf) as usize;
 
         // Read runs
-        let mut runs = Vec::with_capacity(run_count);
+        // Never reserve more than the input can hold (16 bytes per run): the count is untrusted.
+        let mut runs = Vec::with_capacity(run_count.min(bytes.len() / 16));
         for _ in 0..run_count {
             cursor.read_exact(&mut buf)?;
             let value = u64::from_le_bytes(buf);
